@@ -2137,21 +2137,78 @@ func ruleOrderingDrains(c *Check, p *Program, rule string) {
 		}
 		done = true
 		c.Funcs[fname(fn)] = true
-		// v is what the per-block channel delivered
-		delivered := func(v ssa.Value) bool {
+		// v is what the channel chv delivered
+		delivered := func(v, chv ssa.Value) bool {
 			ok := false
 			walkBack(v, false, func(w ssa.Value) bool {
-				if u, isU := w.(*ssa.UnOp); isU && u.Op == token.ARROW && u.X == ssa.Value(ch) {
+				if u, isU := w.(*ssa.UnOp); isU && u.Op == token.ARROW && u.X == chv {
 					ok = true
 				}
 				if ex, isE := w.(*ssa.Extract); isE && ex.Index == 0 {
-					if u, isU := ex.Tuple.(*ssa.UnOp); isU && u.Op == token.ARROW && u.X == ssa.Value(ch) {
+					if u, isU := ex.Tuple.(*ssa.UnOp); isU && u.Op == token.ARROW && u.X == chv {
 						ok = true
 					}
 				}
 				return true
 			})
 			return ok
+		}
+		// block b is entered only when what chv delivered is nil
+		sentinelGuarded := func(b *ssa.BasicBlock, chv ssa.Value) bool {
+			for _, l := range guardsOf(b) {
+				if bo, ok := l.Cond.(*ssa.BinOp); ok && (bo.Op == token.EQL && l.Val || bo.Op == token.NEQ && !l.Val) {
+					if isNilConst(bo.Y) && delivered(bo.X, chv) || isNilConst(bo.X) && delivered(bo.Y, chv) {
+						return true
+					}
+				}
+			}
+			return false
+		}
+		// a boolean helper that takes the per-block channel: it yields `val` only when its channel delivered the sentinel
+		helperSaysSentinel := func(call *ssa.Call, val bool) bool {
+			g := staticCallee(call)
+			if g == nil || !inModule(g) || len(g.Params) != len(call.Call.Args) || g.Signature.Results().Len() != 1 {
+				return false
+			}
+			pi := -1
+			for i, a := range call.Call.Args {
+				if a == ssa.Value(ch) {
+					pi = i
+				}
+			}
+			if pi < 0 {
+				return false
+			}
+			prm := ssa.Value(g.Params[pi])
+			all, any := true, false
+			var judge func(v ssa.Value, b *ssa.BasicBlock)
+			judge = func(v ssa.Value, b *ssa.BasicBlock) {
+				switch x := v.(type) {
+				case *ssa.Const:
+					if x.Value != nil && constant.BoolVal(x.Value) == val {
+						any = true
+						if !sentinelGuarded(b, prm) {
+							all = false
+						}
+					}
+				case *ssa.Phi:
+					for i, e := range x.Edges {
+						if _, isC := e.(*ssa.Const); isC {
+							judge(e, x.Block().Preds[i])
+						} else {
+							all = false
+						}
+					}
+				default:
+					all = false
+				}
+			}
+			allInstrs(g, func(in ssa.Instruction) {
+				if r, ok := in.(*ssa.Return); ok && len(r.Results) == 1 {
+					judge(r.Results[0], r.Block())
+				}
+			})
+			return all && any
 		}
 		nRet := 0
 		allInstrs(fn, func(in ssa.Instruction) {
@@ -2165,11 +2222,12 @@ func ruleOrderingDrains(c *Check, p *Program, rule string) {
 				if ex, ok := l.Cond.(*ssa.Extract); ok && ex.Index == 1 && !l.Val && ex.Tuple == ch.Tuple {
 					why = "the queue was closed"
 				}
-				if bo, ok := l.Cond.(*ssa.BinOp); ok && (bo.Op == token.EQL && l.Val || bo.Op == token.NEQ && !l.Val) {
-					if isNilConst(bo.Y) && delivered(bo.X) || isNilConst(bo.X) && delivered(bo.Y) {
-						why = "the per-block channel delivered the sentinel (nil)"
-					}
+				if call, ok := l.Cond.(*ssa.Call); ok && helperSaysSentinel(call, l.Val) {
+					why = "a helper reports that the per-block channel delivered the sentinel (nil)"
 				}
+			}
+			if sentinelGuarded(in.Block(), ssa.Value(ch)) {
+				why = "the per-block channel delivered the sentinel (nil)"
 			}
 			c.Cond(why != "", rule, "initW.goroutine#leaves-only-on-close-or-sentinel", p.InstrPos(in),
 				"the ordering goroutine returns only when the queue is closed or when it has taken the sentinel; after a failed write it keeps taking (and closing) per-block channels, so that Writer.write, the workers and Blocks.close's hand-shake are all answered",
